@@ -150,7 +150,7 @@ def culprit(data, parts, cuts=()):
             break
     if k is None:      # byte-at-a-time decodes: the failure depends on where the cuts fall
         lm = label_map(parts)
-        return "split-in=" + "+".join(sorted(set(lm.get(p, "boundary") for p in cuts)))
+        return "split-in=" + ("+".join(sorted(set(lm.get(p, "boundary") for p in cuts))) or "one-piece")
     off, prev = 0, None
     for lab, b in parts:
         if off + len(b) > k:
